@@ -49,7 +49,7 @@ THEOREMS = ["C10_infer_sound_Unary",
             "C10_elem_sound_Add",
             "C10_elem_sound_Sub",
             "C10_elem_sound_Mul",
-            "C10_elem_sound_Div",
+            "C10_elem_sound_Div", "C10_elem_sound_Div_exact",
             "C10_elem_sound_Equal",
             "C10_F5_equal_fold_refuted",
             "C10_F5_Equal_refuted",
@@ -130,7 +130,12 @@ def main(ctx):
     for c in cases[:3]:
         ctx.samples.append({"check": "infer/execute", "input": c["input"][:400], "tag": c["tag"]})
     terms = [c["term"] for c in cases]
-    dis, pf, err = ctx.coq_eval_cases(GROUP, REQ, terms, "agree", "prop_ok", shard=150, tag="main")
+    # which Div closure does the tree under check have? (C01's fix "only folds exact quotients")
+    bsrc = open(os.path.join(vf.REPO, "rten-shape-inference/src/ops/binary.rs")).read()
+    divx = "checked_rem" in bsrc[bsrc.index("impl InferShapes for Div"):bsrc.index("impl InferShapes for Equal")]
+    ctx.pins_rec.append({"name": "div_folds_exact_quotients_only", "file": "rten-shape-inference/src/ops/binary.rs", "text": str(divx)})
+    agree = "agree_dx" if divx else "agree"
+    dis, pf, err = ctx.coq_eval_cases(GROUP, REQ, terms, agree, "prop_ok", shard=150, tag="main")
     if err:
         raise vf.CheckerBroken("model evaluation failed: %s" % err)
     ctx.corr.append({"name": "infer/execute", "cases": len(cases), "disagree": len(dis), "property_failures": len(pf)})
